@@ -30,26 +30,40 @@ def clean():
     sh("git checkout -- . && git clean -fdq", REPO)
 
 
+FAST = os.environ.get("SEED_FAST") == "1"  # evalall: skip the demonstration and the repository's suite (validated at import time)
+
+
 def evaluate(name, checks):
     d = os.path.join(VERIF, "seeded", name)
     meta = json.load(open(os.path.join(d, "meta.json")))
     assert not sh("git status --porcelain", REPO).stdout.strip(), "/repo is dirty"
     ev = {"time": time.strftime("%Y-%m-%dT%H:%M:%S"), "repo_head": sh("git log --format=%h -1", REPO).stdout.strip(), "checks": {}}
     try:
-        shutil.copy(os.path.join(d, "seed_demo_test.go.txt"), os.path.join(REPO, "seed_demo_test.go"))
-        r = sh("go test -count=1 -run 'TestSeedDemo' . 2>&1 | tail -3", REPO)
-        ev["demo_on_unchanged_tree"] = "pass" if r.stdout.strip().startswith("ok") or "\nok" in r.stdout else "FAIL: " + r.stdout[-300:]
-        r = sh(f"git apply {d}/patch.diff", REPO)
-        if r.returncode != 0:
-            ev["error"] = "patch does not apply: " + r.stderr[-300:]
-            return ev
-        r = sh("go build ./... 2>&1 | tail -3", REPO)
-        ev["build"] = "ok" if not r.stdout.strip() else r.stdout[-300:]
-        r = sh("go test -count=1 -run 'TestSeedDemo' . 2>&1 | tail -3", REPO)
-        ev["demo_with_change"] = "fails (as required)" if "FAIL" in r.stdout else "UNEXPECTED: " + r.stdout[-300:]
-        os.remove(os.path.join(REPO, "seed_demo_test.go"))
-        r = sh("go test -count=1 ./... 2>&1 | tail -4", REPO)
-        ev["repo_suite_with_change"] = "pass" if "FAIL" not in r.stdout else "FAIL: " + r.stdout[-300:]
+        if FAST:
+            old = meta.get("evaluation", {})
+            for k in ("demo_on_unchanged_tree", "demo_with_change", "repo_suite_with_change"):
+                ev[k] = old.get(k)
+            r = sh(f"git apply {d}/patch.diff", REPO)
+            if r.returncode != 0:
+                ev["error"] = "patch does not apply: " + r.stderr[-300:]
+                return ev
+            r = sh("go build ./... 2>&1 | tail -3", REPO)
+            ev["build"] = "ok" if not r.stdout.strip() else r.stdout[-300:]
+        else:
+            shutil.copy(os.path.join(d, "seed_demo_test.go.txt"), os.path.join(REPO, "seed_demo_test.go"))
+            r = sh("go test -count=1 -run 'TestSeedDemo' . 2>&1 | tail -3", REPO)
+            ev["demo_on_unchanged_tree"] = "pass" if r.stdout.strip().startswith("ok") or "\nok" in r.stdout else "FAIL: " + r.stdout[-300:]
+            r = sh(f"git apply {d}/patch.diff", REPO)
+            if r.returncode != 0:
+                ev["error"] = "patch does not apply: " + r.stderr[-300:]
+                return ev
+            r = sh("go build ./... 2>&1 | tail -3", REPO)
+            ev["build"] = "ok" if not r.stdout.strip() else r.stdout[-300:]
+            r = sh("go test -count=1 -run 'TestSeedDemo' . 2>&1 | tail -3", REPO)
+            ev["demo_with_change"] = "fails (as required)" if "FAIL" in r.stdout else "UNEXPECTED: " + r.stdout[-300:]
+            os.remove(os.path.join(REPO, "seed_demo_test.go"))
+            r = sh("go test -count=1 ./... 2>&1 | tail -4", REPO)
+            ev["repo_suite_with_change"] = "pass" if "FAIL" not in r.stdout else "FAIL: " + r.stdout[-300:]
         for c in checks:
             t0 = time.time()
             r = sh(f"./run.sh {c} quick", VERIF)
@@ -91,6 +105,9 @@ def main():
                 continue
             meta = json.load(open(mp))
             prev = meta.get("evaluation", {}).get("caught_by") or [meta.get("property", name[:3].upper())]
+            if meta.get("out_of_domain"):
+                print(f"SEED {name}: out of domain (skipped)", flush=True)
+                continue
             ev = evaluate(name, prev)
             ok = ev.get("caught_by") == sorted(prev) and "error" not in ev and ev.get("repo_suite_with_change") == "pass" and ev.get("demo_on_unchanged_tree") == "pass" and ev.get("demo_with_change", "").startswith("fails")
             print(f"SEED {name}: {'ok' if ok else 'CHANGED'} caught_by={ev.get('caught_by')} before={prev} {ev.get('error','')}", flush=True)
